@@ -237,6 +237,7 @@ def gen_defn(rng):
         cnt = "n_" + meas
     return dict(model=model, dim=dim, meas=meas, cnt=cnt, rat=rat, der=der, seg=seg, sql_backed=rng.random() < 0.25, composite=rng.random() < 0.25,
                 inline=rng.random() < 0.5, meas_col=rng.choice(["c0", "c1", "c0 + c1"]),
+                graph_metric=rng.choice([None, "before", "before", "after"]),
                 sg_cat=rng.choice([None, None, ["day", "month"], ["year"], ["day", "week", "month", "quarter", "year"]]),
                 sg_time=rng.choice([None, None, ["day", "month"], ["week", "quarter", "year"], ["hour", "day"]]))
 
@@ -273,6 +274,13 @@ def try_defn(d):
     if d["inline"]:
         mets.append(Metric(name="ex_inline", sql="SUM(c0) + COUNT(*)"))
     src = dict(sql="SELECT * FROM tbl1 WHERE c1 >= 0") if d["sql_backed"] else dict(table="tbl1")
+    gfirst = d.get("graph_metric") == "before"
+    if gfirst:
+        # a graph-level derived metric over UNQUALIFIED measure names, accepted BEFORE the model that owns them is registered
+        try:
+            L.add_metric(Metric(name="gm_total", type="derived", sql="%s + %s" % (d["meas"], d["cnt"])))
+        except Exception:
+            gfirst = False
     try:
         L.add_model(Model(name=d["model"], primary_key=(["id", "id2"] if d["composite"] else "id"),
                           dimensions=[Dimension(name=d["dim"], type="categorical", sql="s0", supported_granularities=d.get("sg_cat")),
@@ -280,6 +288,12 @@ def try_defn(d):
                           metrics=mets, segments=[Segment(name=d["seg"], sql="{model}.s0 = 'a'")], **src))
     except Exception as e:
         return False, {"add_model": "%s: %s" % (type(e).__name__, str(e)[:100])}
+    if d.get("graph_metric") == "after":
+        try:
+            L.add_metric(Metric(name="gm_total", type="derived", sql="%s + %s" % (d["meas"], d["cnt"])))
+            gfirst = True
+        except Exception:
+            pass
     m = d["model"]
     qs = {"dim": dict(dimensions=["%s.%s" % (m, d["dim"])]), "meas": dict(metrics=["%s.%s" % (m, d["meas"])]), "count": dict(metrics=["%s.%s" % (m, d["cnt"])]),
           "ratio": dict(metrics=["%s.%s" % (m, d["rat"])]), "derived": dict(metrics=["%s.%s" % (m, d["der"])]),
@@ -288,6 +302,8 @@ def try_defn(d):
         qs["time__" + gname] = dict(dimensions=["%s.t_%s__%s" % (m, d["dim"][:6], gname)])
     if d["inline"]:
         qs["inline"] = dict(metrics=["%s.ex_inline" % m])
+    if gfirst:
+        qs["graph_metric"] = dict(metrics=["gm_total"])
     errs = {}
     for k, q in qs.items():
         try:
